@@ -38,6 +38,14 @@ def c17_suites(tier):
     return [system.GateSuite(), gens.StartRowSuite(), system.RandomSessionSuite()]
 
 
+def c08_suites(tier):
+    return [system.OwnershipSuite(), tower.TowerViewSuite(), system.RandomSessionSuite()]
+
+
+def c16_suites(tier):
+    return [system.CompositionSuite(), gens.GenHistorySuite()]
+
+
 PROPS = {
     "C01": {"suites": c01_suites},
     "C02": {"suites": c02_suites},
@@ -46,6 +54,8 @@ PROPS = {
     "C05": {"suites": c05_suites},
     "C06": {"suites": c06_suites},
     "C07": {"suites": c07_suites},
+    "C08": {"suites": c08_suites},
+    "C16": {"suites": c16_suites},
     "C17": {"suites": c17_suites},
     "C20": {"suites": c20_suites},
 }
